@@ -464,6 +464,12 @@ def main():
     except extract.Undecided as e:
         out.undecided.append(str(e))
         code = report(out, prop, work)
+    except Exception as e:  # a defect of the machinery must never look like a verdict; evidence is still written
+        import traceback
+        traceback.print_exc()
+        out.undecided.append("internal error of the checking machinery: %r" % (e,))
+        print("UNDECIDED property=%s internal error of the checking machinery: %r" % (pid, e))
+        code = 2
     cov = out.evidence["coverage"]
     cov.setdefault("obligations", 0)
     cov.setdefault("discharged", 0)
@@ -485,4 +491,13 @@ def main():
 
 
 if __name__ == "__main__":
-    sys.exit(main())
+    try:
+        rc = main()
+    except SystemExit:
+        raise
+    except BaseException as e:  # a defect of the machinery must never look like a verdict
+        import traceback
+        traceback.print_exc()
+        print("UNDECIDED internal error of the checking machinery: %r" % (e,))
+        rc = 2
+    sys.exit(rc)
